@@ -8,12 +8,21 @@
     aggsig signatures and handed to the real Transaction::validate / Block::validate.
     Oracle: real Ok => spec Valid (the property). Conversely spec Valid and non-degenerate => real Ok
     is required as anti-vacuity (a tool error, never a verdict).
+(B) Batch layer (spec/TxBalanceBatch.tla): TLC-generated batch plans (size, forged positions) over chunk / batch
+    boundaries are executed on the real TxKernel::batch_sig_verify, Output::batch_verify_proofs and on
+    Transaction::validate of big transactions (mainnet weights, forged kernel ground to the wanted sorted index).
+(S) Full-state layer (spec/TxBalanceState.tla): TLC-generated states (histories of 1..12 blocks in several spend
+    layouts, every single corruption class at every kernel / unspent output; large states around the batch
+    boundaries of the validator's two walks) are realised as real chain directories - honest prefix through
+    Chain::process_block, the forged block and what follows written straight into the txhashset - and judged by
+    the real Chain::validate(true|false).
+    Oracle of (B) and (S): real accept => the spec accepts; the converse is anti-vacuity (tool error).
 The history clause of C01 (full-state sums after any accepted history) is decided by the Chain engine.
 """
 import json, os, collections
 import vlib
 from vlib import Report, ToolError, log
-from checks import _txbal
+from checks import _txbal, _txbal_state
 
 PID = "C01"
 ENGINES = ["txbal"]
@@ -58,6 +67,14 @@ def run(tier, replay):
         obj = json.load(open(replay))
         case = obj["case"]
         case["id"] = 0
+        if "sect" in case:
+            sres, _ = _txbal_state.run_now([case], wd)
+            for verdict, sig, text in _txbal_state.judge(case, sres[0]):
+                if verdict == "violation":
+                    rep.violation(sig, case, text)
+            rep.coverage = {"states": 1, "transitions": 1, "traces_validated_against_impl": 1,
+                            "samples": [{"signature": obj["signature"], "real": sres[0]}]}
+            return rep.finish()
         res, _ = _txbal.run_sharded("validate", [case], wd, "replay", shards=1)
         verdict, text = judge(case, res[0])
         if verdict == "violation":
@@ -65,6 +82,11 @@ def run(tier, replay):
         rep.coverage = {"states": 1, "transitions": 1, "traces_validated_against_impl": 1,
                         "samples": [{"signature": obj["signature"], "real": res[0]}]}
         return rep.finish()
+
+    # (B)+(S) plans from TxBalanceBatch / TxBalanceState; the harness runs in the background while TLC works on (M)
+    st_cases, st_model = _txbal_state.plans(tier)
+    log("TLC %s: %d plans in %.0fs" % (st_model["config"], len(st_cases), st_model["wall_s"]))
+    st_handle = _txbal_state.start(st_cases, wd, {"batch": 2, "state": 3, "large": 2} if thorough else None)
 
     # (M) the rule set implies conservation on every enumerated body
     runs = [("mc/MC_TxBalance_thorough" if thorough else "mc/MC_TxBalance", "single")]
@@ -138,6 +160,45 @@ def run(tier, replay):
         elif verdict == "converse":
             converse.append((c, r, text))
 
+    # (B)+(S) verdicts
+    st_res, st_infos = _txbal_state.collect(st_handle)
+    st_tool, st_converse = [], []
+    st_fam = collections.Counter()
+    for c in st_cases:
+        for verdict, sig, text in _txbal_state.judge(c, st_res[c["id"]]):
+            if verdict == "violation":
+                fam = sig.split(":n=")[0].split(":outputs=")[0]
+                st_fam[fam] += 1
+                if st_fam[fam] <= 4:          # a handful of replays per family; the count goes to the log
+                    rep.violation(sig, c, text)
+            elif verdict == "converse":
+                st_converse.append(text)
+            else:
+                st_tool.append(text)
+    for fam, k in sorted(st_fam.items()):
+        log("%s: %d plans accepted by the real code against the spec" % (fam, k))
+    if st_tool:
+        raise ToolError("batch / full-state section: %d plans not realised as planned (first: %s)" % (len(st_tool), st_tool[0]))
+    # the binding is real: flipped expectations must be flagged by the same oracle
+    for sect, key in (("batch", "ok"), ("state", "full"), ("large", "full")):
+        pr = next((c for c in st_cases if c["sect"] == sect and c["expect"][key]
+                   and st_res[c["id"]].get("res" if sect == "batch" else "full") == "ok"), None)
+        if pr is None:
+            if not rep.violations and not st_converse:
+                raise ToolError("no honest %s plan was accepted by the real code: binding is vacuous" % sect)
+            continue
+        fl = json.loads(json.dumps(pr))
+        fl["expect"][key] = False
+        if not any(v == "violation" for v, _, _ in _txbal_state.judge(fl, st_res[pr["id"]])):
+            raise ToolError("selftest: flipped %s expectation not flagged" % sect)
+    for info in st_infos:
+        ps = info.get("pool_sanity")
+        if ps is not None and not all(ps.values()):
+            raise ToolError("batch section: pool items are not what the plans say: %s" % ps)
+    st_cov = None
+    if not rep.violations and not st_converse:
+        st_cov = _txbal_state.coverage(st_cases, st_res, tier)
+
     # the binding is real: a flipped expectation must be flagged by the same oracle
     probe = next((c for c in cases if c["expect"]["valid"] and not c["expect"]["degenerate"] and res[c["id"]]["res"] == "ok"), None)
     if probe is None and not rep.violations:
@@ -160,9 +221,17 @@ def run(tier, replay):
         if by_rule[rule] == 0:
             raise ToolError("rule %s never the first failing rule in any generated case" % rule)
 
+    states += st_model["states"]
+    trans += st_model["transitions"]
+    model["state_and_batch"] = st_model
+    st_samples = [{"plan": {k: c[k] for k in c if k != "blocks"}, "real": st_res[c["id"]]}
+                  for c in (next(x for x in st_cases if x["sect"] == "batch" and x["forged"]),
+                            next(x for x in st_cases if x["sect"] == "state" and x["cls"] == "kernel_minting"),
+                            next(x for x in st_cases if x["sect"] == "large"))]
     rep.coverage = {
         "states": states, "transitions": trans,
-        "traces_validated_against_impl": len(cases),
+        "traces_validated_against_impl": len(cases) + len(st_cases),
+        "batch_and_state": {"plans": len(st_cases), "coverage": st_cov, "harness": st_infos, "samples": st_samples},
         "samples": [{"case": {k: cases[i][k] for k in ("grp", "body", "ctx", "applied", "expect")}, "real": res[cases[i]["id"]]}
                     for i in (0, len(cases) // 2, len(cases) - 1)],
         "exhaustive_within_bounds": True,
@@ -174,7 +243,8 @@ def run(tier, replay):
         "harness": infos,
         "distinct_rule": "one case = one (shape group, value choice, base, corruption sequence) visited by TLC; "
                          "distinct non-trivial = cases with at least one corruption: %d" % sum(1 for c in cases if c["applied"]),
-        "checker_cmd": "tlc mc/MC_TxBalance (+_thorough,_pairs,_named); tlc mc/MC_TxBalance_emit; h_txbal validate",
+        "checker_cmd": "tlc mc/MC_TxBalance (+_thorough,_pairs,_named); tlc mc/MC_TxBalance_emit; h_txbal validate; "
+                       "tlc mc/MC_TxBalanceState (+_thorough); h_txbal batch; h_txbal state",
     }
     rep.assumptions = [
         "secp256k1-zkp primitives (Pedersen commitments, bulletproofs, aggsig) are used as primitives: H and G independent, "
@@ -184,8 +254,17 @@ def run(tier, replay):
         "kernel kinds and corruption positions are exhaustive within the stated bounds",
         "weight rule transcribed but never binding within the bounds (<= 96 weight units)",
         "history clause of C01 (stored block sums after reorgs) is decided by the Chain engine, not here",
+        "batch plans: items are taken cyclically from a pool of 16 valid kernels / 6 valid outputs; a forged item is a valid "
+        "one carrying its neighbour's signature / proof; Output::batch_verify_proofs is never called with an empty batch "
+        "(all callers in grin guard it; the empty call crashes inside libsecp)",
+        "full-state plans: the validator is reached through Chain::validate (the same Extension::validate that txhashset_write "
+        "and the PIBD desegmenter call); MMR hashes, roots and sizes are consistent with the head header by construction; "
+        "large states are assembled from over-weight filler blocks written directly into the txhashset (the validator sees "
+        "MMRs and the head header only); genesis carries no reward",
     ]
     rc = rep.finish()
+    if rc == 0 and st_converse:
+        raise ToolError("%d honest batch / state plans were refused by the real code (first: %s)" % (len(st_converse), st_converse[0]))
     if rc == 0 and converse:
         c, r, text = converse[0]
         print(json.dumps({"case": c, "real": r})[:3000])
